@@ -21,7 +21,7 @@ pub fn meta(id: &'static str) -> Meta {
         Meta {
             id: "C04",
             level: "model_checking",
-            rule: format!("bounded exhaustive exploration of the alignment writer's operation sequences: {common} Oracle: the three-way case distinction of the statement implemented literally (matched centre -> strand-corrected middle base; within (k-1)/2 of a matched centre on the same contig -> upper-case reference base; else '-'), then the two masks. States = distinct (reference layout, matched-centre pattern) inputs driven through the writer; transitions = write_split_kmer calls implied (matched centres); every run is the real implementation, so each explored sequence is validated against it. Through the CLI additionally every flag combination at k = 9, 31, 33, 63, a reference of two 40 000-base contigs (more than 2^16 columns) and one of 65 537 contigs."),
+            rule: format!("bounded exhaustive exploration of the alignment writer's operation sequences: {common} Oracle: the three-way case distinction of the statement implemented literally (matched centre -> strand-corrected middle base; within (k-1)/2 of a matched centre on the same contig -> upper-case reference base; else '-'), then the two masks. States = distinct (reference layout, matched-centre pattern) inputs driven through the writer; transitions = write_split_kmer calls implied (matched centres); every run is the real implementation, so each explored sequence is validated against it. Through the CLI additionally every flag combination at k = 9, 31, 33, 63, a reference with a 70 000-base contig (positions beyond 2^16) and one of 65 537 contigs."),
             assumptions: vec!["a map in which no k-mer matches may be refused or print all gaps; a reference without any k-mer is refused".into(), "a reference letter outside A/C/G/T/N must be shown as itself (upper-case) where the reference base is shown; how it is read inside a k-mer is not defined by the tool, so any consistent reading (A, C, G, T or not-a-base, the same for the whole run) is accepted".into()],
             exhaustive_when_uncapped: true,
         }
@@ -29,7 +29,7 @@ pub fn meta(id: &'static str) -> Meta {
         Meta {
             id: "C05",
             level: "exploration",
-            rule: format!("for every case of the C04 families the real `write_vcf` output is related to the real `write_aln` output of the same inputs and the upper-cased reference: a record at (contig, 1-based position) exists exactly where some sample's aligned character differs from the upper-case reference base; REF is that base (N if not A/C/G/T); every genotype decodes through REF/ALT to the aligned character with '.' for '-' and N for ambiguity codes; contig names/order and sample order as given. Families: {common} Plus a CLI family (`ska map -f vcf|aln`, several contigs, ##contig header; a reference of two 40 000-base contigs and one of 65 537 contigs)."),
+            rule: format!("for every case of the C04 families the real `write_vcf` output is related to the real `write_aln` output of the same inputs and the upper-cased reference: a record at (contig, 1-based position) exists exactly where some sample's aligned character differs from the upper-case reference base; REF is that base (N if not A/C/G/T); every genotype decodes through REF/ALT to the aligned character with '.' for '-' and N for ambiguity codes; contig names/order and sample order as given. Families: {common} Plus a CLI family (`ska map -f vcf|aln`, several contigs, ##contig header; a reference with a 70 000-base contig and one of 65 537 contigs)."),
             assumptions: vec!["the relation is evaluated between two real outputs, so it does not depend on the C04 model".into()],
             exhaustive_when_uncapped: true,
         }
@@ -652,11 +652,11 @@ pub fn run(ctx: &Ctx, rep: &mut Report, id: &str) {
                 }
             }
         }
-        // large references through the CLI at k=31: (a) two contigs of 40 000 bases (more than 2^16 columns; one sample
-        // identical to the reference, one with a single SNP far into contig 2), (b) 65 537 contigs of 33 bases (more than
+        // large references through the CLI at k=31: (a) contigs of 70 000 and 12 000 bases (positions beyond 2^16 within a contig and
+        // in the whole; one sample identical to the reference, one with a SNP at 68 000 and one in contig 2), (b) 65 537 contigs of 33 bases (more than
         // 2^16 contigs) mapped against themselves. Letters come from a fixed generator; a draw in which some split
         // k-mer repeats is skipped (the model would then expect ambiguity codes: not the point here).
-        for which in ["two contigs of 40000 bases", "65537 contigs of 33 bases"] {
+        for which in ["two contigs of 70000 and 12000 bases", "65537 contigs of 33 bases"] {
             idx += 1;
             if !ctx.mine(idx) {
                 continue;
@@ -671,10 +671,13 @@ pub fn run(ctx: &Ctx, rep: &mut Report, id: &str) {
                     })
                     .collect()
             };
-            let reference: Vec<Vec<u8>> = if which.starts_with("two") { vec![draw(40_000), draw(40_000)] } else { (0..65_537).map(|_| draw(33)).collect() };
+            let reference: Vec<Vec<u8>> = if which.starts_with("two") { vec![draw(70_000), draw(12_000)] } else { (0..65_537).map(|_| draw(33)).collect() };
             let mut snp = reference.clone();
-            let (sc, sp) = if which.starts_with("two") { (1usize, 30_000usize) } else { (65_536usize, 16usize) };
+            let (sc, sp) = if which.starts_with("two") { (0usize, 68_000usize) } else { (65_536usize, 16usize) };
             snp[sc][sp] = comp(snp[sc][sp]);
+            if which.starts_with("two") {
+                snp[1][6_000] = comp(snp[1][6_000]);
+            }
             let names = vec!["same".to_string(), "snp".to_string()];
             let t = Table::from_samples(k, true, &names, &[reference.clone(), snp.clone()]);
             if t.has_ambig() {
